@@ -4,6 +4,7 @@ import (
 	"context"
 	"encoding/binary"
 	"fmt"
+	"runtime"
 	"strings"
 	"time"
 
@@ -366,4 +367,117 @@ func CoqCObs(o CObs) string {
 		fw[i] = fmt.Sprintf("(%s, (%s, %s))", vh.CoqN(f[0]), vh.CoqN(f[1]), vh.CoqN(f[2]))
 	}
 	return fmt.Sprintf("mkcobs %s %s %s %s %s %s", vh.CoqList(out), vh.CoqList(dl), vh.CoqN(o.NewID), vh.CoqList(pd), vh.CoqList(fw), vh.CoqN(o.Next))
+}
+
+// ---------------------------------------------------------------------------
+// Concurrent phase: several answers travel back through one transit at the
+// same time, the link to one requester is stalled between the transit's
+// Encode and its write. Frames of different neighbours are handled by
+// different goroutines in the agent, so this interleaving is ordinary.
+
+type CCDelivered struct {
+	To  int    `json:"to"`
+	ID  uint64 `json:"id"`
+	Tag uint64 `json:"tag"`
+	OK  bool   `json:"ok"`
+}
+
+type CCObs struct {
+	Delivered []CCDelivered `json:"delivered"`
+	Notes     string        `json:"notes,omitempty"`
+}
+
+// RunConcurrentResponses: requester 1 asks targets 3 and 4 (its ids 1 and 2),
+// requester 2 asks target 5 (its id 2: every agent counts 1, 2, 3, ...), all
+// through transit 9. The link 9 -> 1 stalls; 3, 4 and 5 answer in that order;
+// then the link drains. answer(t, tag) is what target t answers to request tag.
+func RunConcurrentResponses(answer func(t int, tag uint64) uint64, singleP bool) (CCObs, error) {
+	var o CCObs
+	if singleP {
+		// with one P a sync.Pool hands a buffer that was just put back to the next
+		// caller every time; with more Ps the same happens whenever two handlers
+		// run on the same P
+		prev := runtime.GOMAXPROCS(1)
+		defer runtime.GOMAXPROCS(prev)
+	}
+	n, err := NewNode(TransitMe, nil)
+	if err != nil {
+		return o, err
+	}
+	defer n.Close()
+	for _, p := range []int{1, 2, 3, 4, 5} {
+		n.Connect(p, true)
+	}
+	req := func(from int, id uint64, target int, tag uint64) uint64 {
+		r := &protocol.ControlRequest{RequestID: id, ControlType: CtlType, TargetAgent: PID(target), Path: []identity.AgentID{PID(target)}, Data: be8(tag)}
+		n.Deliver(from, &protocol.Frame{Type: protocol.FrameControlRequest, StreamID: protocol.ControlStreamID, Payload: r.Encode()})
+		var fid uint64
+		for _, rs := range n.Collect() {
+			if rs.To == target && rs.F.Type == protocol.FrameControlRequest {
+				if d, err := protocol.DecodeControlRequest(rs.F.Payload); err == nil {
+					fid = d.RequestID
+				}
+			}
+		}
+		return fid
+	}
+	f1 := req(1, 1, 3, 11)
+	f2 := req(1, 2, 4, 12)
+	f3 := req(2, 2, 5, 13)
+	if f1 == 0 || f2 == 0 || f3 == 0 {
+		o.Notes = "requests were not forwarded"
+		return o, nil
+	}
+	// the scripted targets build their answers by hand (in a deployment every agent
+	// is its own process and shares nothing with the transit)
+	resp := func(id uint64, tag uint64) *protocol.Frame {
+		b := make([]byte, 0, 20)
+		b = append(b, be8(id)...)
+		b = append(b, CtlType, 1, 0, 8)
+		b = append(b, be8(tag)...)
+		return &protocol.Frame{Type: protocol.FrameControlResponse, StreamID: protocol.ControlStreamID, Payload: b}
+	}
+	s1 := n.sinks[1]
+	gate := make(chan struct{})
+	s1.mu.Lock()
+	s1.Gate, s1.GateOK = gate, true
+	s1.mu.Unlock()
+	d1, d2 := make(chan struct{}), make(chan struct{})
+	go func() { n.Deliver(3, resp(f1, answer(3, 11))); close(d1) }()
+	if !waitUntil(5*time.Second, func() bool { s1.mu.Lock(); defer s1.mu.Unlock(); return s1.Parked }) {
+		close(gate)
+		o.Notes = "the first answer never reached the stalled write"
+		return o, nil
+	}
+	go func() { n.Deliver(4, resp(f2, answer(4, 12))); close(d2) }()
+	// the second answer has been taken out of forwardedControl, encoded, and waits for the link's write lock
+	waitUntil(5*time.Second, func() bool {
+		_, fids, _, _ := n.A.VerifControlState()
+		for _, f := range fids {
+			if f == f2 {
+				return false
+			}
+		}
+		return true
+	})
+	for i := 0; i < 20; i++ {
+		runtime.Gosched()
+	}
+	time.Sleep(2 * time.Millisecond)
+	n.Deliver(5, resp(f3, answer(5, 13))) // goes out to requester 2 at once
+	close(gate)
+	<-d1
+	<-d2
+	for _, rs := range n.Collect() {
+		if rs.F.Type != protocol.FrameControlResponse {
+			continue
+		}
+		r, err := protocol.DecodeControlResponse(rs.F.Payload)
+		if err != nil {
+			o.Notes += "undecodable response; "
+			continue
+		}
+		o.Delivered = append(o.Delivered, CCDelivered{To: rs.To, ID: r.RequestID, Tag: respCode(r.Data, r.Success), OK: r.Success})
+	}
+	return o, nil
 }
